@@ -192,6 +192,15 @@ theorem c18_payload_is_a_map (cfg : Cfg) {s : St} (hr : Reach cfg s) {i j : Nat}
   · exact u i j a b h ha hb hai hbi
   · intro hk; exact u j i b a h hb ha hbi hai ⟨hk.1.symm, hk.2.symm⟩
 
+/-- **the map rebuild loses nothing.**  `recreatePayload` (run by `Cache.Cleanup` when the map once held at least
+`recreateThreshold` entries and now holds at most a tenth of that) copies EVERY entry into the new map - valid ones
+and ones that are still loading alike (`SV.Cache.copied`, tied to the source by `c18_x_recreate_copies_all`): the set
+of map entries, hence every theorem of this file, is the same with and without a rebuild. -/
+theorem c18_rebuild_keeps_every_entry (s : St) (c : Nat) :
+    (cacheCleanup s c).1.heap = evicted s c ∧ recreate (evicted s c) c = evicted s c ∧
+      (∀ e ∈ evicted s c, e.inMap = true → e.cache = c → copied e = true) :=
+  ⟨cacheCleanup_heap s c, recreate_eq _ _, fun _ _ _ _ => rfl⟩
+
 /-! ## management (all interleavings) -/
 
 /-- **managed.**  In every reachable state every cache that was not released is in the cleaner's bucket list and
@@ -390,6 +399,19 @@ theorem c18_x_cache_sections :
     updateGenerationEvents = ["if ng != e.gen", "call e.gen.size.Sub", "call ng.size.Add", "e.gen = ng"] ∧
     cacheCleanupConds = ["if e.gen == nil || !e.gen.stale"] ∧
     cacheCleanupEvents = ["call delete", "e.deleted = true", "totalFreed += e.size"] := by decide
+
+/-- `recreatePayload`: thresholds, its only two conditions are the early returns, and the copy loop ranges over the
+whole map with the single unconditional statement `newPayload[k] = v` (nothing is skipped) -/
+theorem c18_x_recreate_copies_all :
+    SV.Extracted.C18.recreateThreshold = SV.Cache.recreateThreshold ∧
+    SV.Extracted.C18.excessiveSizeFactor = SV.Cache.excessiveSizeFactor ∧
+    recreateConds = ["if c.maxPayloadSize < recreateThreshold",
+      "if len(c.payload)*excessiveSizeFactor > c.maxPayloadSize"] ∧
+    recreateCopyLoop = ["range c.payload", "newPayload[k] = v"] ∧
+    recreateEvents = ["newPayload := make(map[uint32]*entry[V], len(c.payload)*2)", "newPayload[k] = v",
+      "c.payload = newPayload", "c.maxPayloadSize = len(c.payload)"] ∧
+    cacheCleanupMaxEvents = ["if len(c.payload) > c.maxPayloadSize", "c.maxPayloadSize = len(c.payload)", "call delete",
+      "call c.recreatePayload"] := by decide
 
 /-- `getOrCreate`, `Get`, `GetWithError` as modelled -/
 theorem c18_x_lookup_sections :
